@@ -256,6 +256,19 @@ where
     part_min(name, cases_quick, cases_thorough, strat, oracle, |c: &C, _: &dyn Fn(&C) -> bool| c.clone())
 }
 
+#[derive(Clone, Copy)]
+pub struct PartOpts {
+    /// upper limit on concurrently running shards (for parts whose cases are themselves heavily threaded)
+    pub max_shards: usize,
+    pub max_shrink_iters: u32,
+}
+
+impl Default for PartOpts {
+    fn default() -> PartOpts {
+        PartOpts { max_shards: usize::MAX, max_shrink_iters: 2048 }
+    }
+}
+
 pub fn part_min<C, SF>(
     name: &'static str,
     cases_quick: u64,
@@ -263,6 +276,22 @@ pub fn part_min<C, SF>(
     strat: SF,
     oracle: impl Fn(&C, &Rec, &Ctx) -> Result<(), String> + Send + Sync + 'static,
     minimise: impl Fn(&C, &dyn Fn(&C) -> bool) -> C + Send + Sync + 'static,
+) -> PartDef
+where
+    C: Serialize + DeserializeOwned + std::fmt::Debug + Clone + Send + 'static,
+    SF: Fn(&Ctx) -> BoxedStrategy<C> + Send + Sync + 'static,
+{
+    part_opts(name, cases_quick, cases_thorough, strat, oracle, minimise, PartOpts::default())
+}
+
+pub fn part_opts<C, SF>(
+    name: &'static str,
+    cases_quick: u64,
+    cases_thorough: u64,
+    strat: SF,
+    oracle: impl Fn(&C, &Rec, &Ctx) -> Result<(), String> + Send + Sync + 'static,
+    minimise: impl Fn(&C, &dyn Fn(&C) -> bool) -> C + Send + Sync + 'static,
+    opts: PartOpts,
 ) -> PartDef
 where
     C: Serialize + DeserializeOwned + std::fmt::Debug + Clone + Send + 'static,
@@ -276,7 +305,7 @@ where
         name,
         run: Box::new(move |ctx, ev| {
             let cases = ctx.pick(cases_quick, cases_thorough);
-            run_sharded(ctx, ev, name, cases, &strat, &o1, &minimise);
+            run_sharded(ctx, ev, name, cases, &strat, &o1, &minimise, opts);
         }),
         replay: Box::new(move |v, rec, ctx| {
             let c: C = serde_json::from_value(v.clone()).map_err(|e| format!("replay file does not hold a case of part {}: {}", name, e))?;
@@ -294,12 +323,12 @@ pub fn custom_part(
     PartDef { name, run: Box::new(run), replay: Box::new(replay) }
 }
 
-fn run_sharded<C, SF>(ctx: &Ctx, ev: &mut Evidence, part: &'static str, cases: u64, strat: &SF, oracle: &Oracle<C>, minimise: &Minimiser<C>)
+fn run_sharded<C, SF>(ctx: &Ctx, ev: &mut Evidence, part: &'static str, cases: u64, strat: &SF, oracle: &Oracle<C>, minimise: &Minimiser<C>, opts: PartOpts)
 where
     C: Serialize + DeserializeOwned + std::fmt::Debug + Clone + Send + 'static,
     SF: Fn(&Ctx) -> BoxedStrategy<C> + Send + Sync,
 {
-    let shards = ctx.threads.max(1) as u64;
+    let shards = ctx.threads.max(1).min(opts.max_shards.max(1)) as u64;
     let shards = shards.min(cases.max(1));
     let abort = AtomicBool::new(false);
     let merged = Mutex::new(Merged::default());
@@ -319,7 +348,7 @@ where
                 let config = Config {
                     cases: n as u32,
                     failure_persistence: None,
-                    max_shrink_iters: 2048,
+                    max_shrink_iters: opts.max_shrink_iters,
                     max_global_rejects: 1 << 30,
                     max_local_rejects: 1 << 24,
                     rng_algorithm: RngAlgorithm::ChaCha,
